@@ -492,7 +492,9 @@ class VerifyTask:
         obj = c.constructs.fresh(st, cls.__name__.lower())
         obj.cls = cls
         a = View(c.bind_ctor(args, kwargs))
-        pre = c.requires(a)
+        # an `__init__` contract that is also verified against its body has a `self_shape`, and then `requires` takes
+        # (self, a) as in VerifyTask.body (the new object's fields are unconstrained at entry)
+        pre = c.requires(obj, a) if c.self_shape is not None else c.requires(a)
         st.oblige(f"{self.name}/call-pre@{cls.__name__}():{(site or '').split(':')[-1]}", pre if isinstance(pre, (SBool, bool)) else mk_bool(V._zb(pre)), "call-pre")
         excs = list(c.raises)
         if excs:
